@@ -90,6 +90,8 @@ def run(tier, runner):
     r_bc = callgraph.bytecmp([(p, p.meta['E']) for p in vp])
     r_bc.require(8, 'vector instantiations')
     r_rp = retpos.ret_pos(progs + real)
+    r_vi = shape2.value_init(progs + real)
+    r_vi.require(1, 'members that create elements without a value argument (resize(n), append(n))')
     r_rp.require(9, 'position-returning members (insert x4, emplace x2, erase x2, insert_range x2, adjustCapacity)')
     r_alias.require(9, 'operations taking a reference to an element value')
     ws = sig_witnesses()
@@ -103,14 +105,14 @@ def run(tier, runner):
     r_cd.require(15, 'constructs into container storage')
     r_tail.require(12, 'size commits')
     return {
-        'results': [r_w, r_r, r_es, r_span, r_it, r_ov, r_cd, r_tail, r_alias, r_bc, r_rp] + r_sig,
+        'results': [r_w, r_r, r_es, r_span, r_it, r_ov, r_cd, r_tail, r_alias, r_bc, r_rp, r_vi] + r_sig,
         'explanation': 'C01 as stated (equality of sequences with std::vector over histories) is a statement about run-time values and is not decided.  '
                        'Decided: structural clauses, each necessary for it.  ENC-W / ENC-R: the inline size/capacity words of SmallVector are written only '
                        'by the encoders, jointly, or on an object known to be large, and every value read of `_size` honours the full marker; ENC-SIB: the three encoders themselves agree on the discipline (count in `_capa`, marker set when the count reaches N, N restored under the marker before `_capa` changes, large branch writes only `_size`).  '
                        'INLINE-SPAN: the N inline slots lie inside the object and nothing else lives there (record layout of every inline instantiation).  '
                        'ITER1: range members instantiated with a single-pass iterator traverse it once.  OVERLAP: erase of an empty range performs no '
                        'element operation (no self move assignment).  CHECK-DOM: no operation, including the move/swap bookkeeping of the bases, '
-                       'constructs into storage whose capacity was not checked.  TAIL: every size commit follows the lifetime operation it accounts for.  ALIAS (shared with C10): a value argument that designates an element of the same vector is read before any element moves, or through a correctly re-based reference / pointer.  BYTECMP: comparisons go through the element operator== - no memcmp over elements unless the element type is integral (a double element archetype is part of the matrix).  RET-POS: every iterator-returning member that takes a position (insert, emplace, erase, insert_range, the re-basing adjustCapacity) returns the index of that position in the storage that is current on return - pointer values are interpreted as (storage version, linear offset), calls that may reallocate open a new version, all paths walked.  SIG: the result type of every operation equals that of std::vector modulo the iterator and size types (compile-time).',
+                       'constructs into storage whose capacity was not checked.  TAIL: every size commit follows the lifetime operation it accounts for.  ALIAS (shared with C10): a value argument that designates an element of the same vector is read before any element moves, or through a correctly re-based reference / pointer.  BYTECMP: comparisons go through the element operator== - no memcmp over elements unless the element type is integral (a double element archetype is part of the matrix).  VALUE-INIT: members that create elements without a value argument value-initialise them (no default-initialisation anywhere in the vector classes).  RET-POS: every iterator-returning member that takes a position (insert, emplace, erase, insert_range, the re-basing adjustCapacity) returns the index of that position in the storage that is current on return - pointer values are interpreted as (storage version, linear offset), calls that may reallocate open a new version, all paths walked.  SIG: the result type of every operation equals that of std::vector modulo the iterator and size types (compile-time).',
         'assumptions': ['element sequences and sizes over histories are not decided (value statements); returned positions are decided by RET-POS for the vector members that take a position'],
         'trusted': ['clang 14 record layout', 'the helper-role table', 'the amcsa plugin export'],
     }
